@@ -123,10 +123,14 @@ theorem evolveTrace_prefixDet (o : EpochOpts W) (fit : Int → Genome W → W) (
   | zero => pd_unfold evolveTrace; pd_auto
   | succ k ih => pd_unfold evolveTrace; pd_auto
 
+macro_rules | `(tactic| pd_leaf) => `(tactic| with_reducible exact evolveTrace_prefixDet _ _ _ _ _)
+
 theorem run_prefixDet (o : EpochOpts W) (fit : Int → Genome W → W) (g : Genome W) (k : Nat) :
     PrefixDet (run o fit g k) := by
   unfold run
   pd_auto
+
+macro_rules | `(tactic| pd_leaf) => `(tactic| with_reducible exact run_prefixDet _ _ _ _)
 
 /-- C17 in the form used by the twin-run check: two raw streams that agree on the prefix consumed by the first
     run give the same final population (and each run returns its own remainder) -/
